@@ -16,6 +16,15 @@ class Ctx:
         self.tier = tier
         self.seed = seed
 
+    def guarded(self, fn, *args, **kw):
+        """Run one rule; an AnalysisError in it is recorded and does not hide the verdicts of
+        the other rules of the property."""
+        try:
+            return fn(*args, **kw)
+        except AnalysisError as e:
+            self.res.error(str(e))
+        return None
+
     def finding(self, rule, where, node, message, construct=None, path=None, **details):
         """``where``: FunctionInfo | ClassInfo | Module | str."""
         if isinstance(where, FunctionInfo):
